@@ -113,3 +113,124 @@ def _(run):
     reset = lambda kind, v, s: z3.BoolVal(isinstance(s.objf['context']['patterns'], VNone) or (isinstance(s.objf['context']['patterns'], VOpt) and z3.is_true(z3.simplify(s.objf['context']['patterns'].none))))
     run.post(ex, outs, modes, {'first-matching-member-decides': first_match, 'pushed-patterns-applied-to-the-member-normalised-text': patterns_ok,
                                'pushed-patterns-consumed': reset})
+
+
+# ------------------------------------------------------------------ XsdList.raw_decode: item-wise decoding
+t = Target('simple_types.XsdList.raw_decode', ['C02'], F, 'XsdList.raw_decode',
+           note='one item-type decode per whitespace-separated chunk, in order, every chunk decoded with the caller\'s validation mode and context; the reported item is the '
+                'decoded value for kept datatypes (numbers, lists; decimals, dates, binaries only when requested), the chunk text itself for dates / durations and for QNames '
+                'when typed decoding is off, decimal_type(value) for decimals when a decimal type is given, str(value) otherwise; a nested list is an error',
+           assumes=['item decoding is uninterpreted; the kind of the decoded value (list, kept datatype, None, str, Decimal, date/duration, other) is a symbolic tag'])
+
+
+@t.symbolic
+def _(run):
+    ex = run.exec(); st = new_state()
+    chunks = z3.Const('chunks', z3.ArraySort(I, S)); n = z3.Int('n_chunks')       # (length, index -> chunk): the sequence theory is incomplete for refutations
+    dec = z3.Function('item_decode', S, Ref); kind = z3.Function('kind', Ref, I)    # 0 list, 1 kept datatype, 2 None, 3 str, 4 Decimal, 5 date/duration, 6 other
+    as_text = z3.Function('as_text', Ref, S); conv_dec = z3.Function('decimal_type', Ref, Ref); tostr = z3.Function('str', Ref, Ref); text_item = z3.Function('text_item', S, Ref)
+    starts_brace = z3.Function('starts_with_brace', Ref, B); strip = z3.Function('strip', S, S)
+    is_dc = z3.Bool('context_is_DecodeContext'); dt_none = z3.Bool('decimal_type_none'); is_qn = z3.Bool('is_qname')
+    st.objf['item_type'] = {}; st.objf['context'] = {'keep_datatypes': OPAQUE, 'decimal_type': VOpt(dt_none, VStr(SV('<decimal_type>')))}
+    st.objf['self'] = {'item_type': VObj('item_type')}
+    st.env.update(self=VObj('self'), obj=VStr(z3.String('obj')), validation=VStr(z3.String('validation')), context=VObj('context'))
+    st.ghost.update(errs=0, decoded=(), ff={})
+    ex.callees['normalize'] = lambda e, s, r, a, k: VStr(z3.String('normalized'))
+    ex.callees['split'] = lambda e, s, r, a, k: ('chunks',)
+
+    def raw_decode(e, s, r, a, k):
+        s.ghost['decoded'] = s.ghost['decoded'] + ((lift(a[0]).t, lift(a[1]).t, a[2]),)
+        return VRef(dec(lift(a[0]).t))
+    ex.callees['raw_decode'] = raw_decode
+
+    def isinstance_(e, s, r, a, k):
+        tn = ast.unparse(a[1])
+        if isinstance(a[0], VObj) and a[0].name == 'context': return VBool(is_dc)
+        x = a[0].t
+        if tn == 'list': return VBool(kind(x) == 0)
+        if tn == 'context.keep_datatypes': return VBool(kind(x) == 1)
+        if tn == 'str': return VBool(kind(x) == 3)
+        if tn == 'Decimal': return VBool(kind(x) == 4)
+        if tn == '(AbstractDateTime, Duration)': return VBool(kind(x) == 5)
+        raise Unsupported('isinstance ' + tn)
+    ex.callees['isinstance'] = isinstance_
+    ex.names.update(DecodeContext=OPAQUE, Decimal=OPAQUE, AbstractDateTime=OPAQUE, Duration=OPAQUE)
+    ex.callees['is_qname'] = lambda e, s, r, a, k: VBool(is_qn)
+
+    def verr(e, s, r, a, k): s.ghost['errs'] += 1; return NONE
+    ex.callees['validation_error'] = verr
+    ex.callees['_'] = lambda *a: OPAQUE; ex.callees['format'] = lambda *a: OPAQUE
+    ex.callees['str'] = lambda e, s, r, a, k: VRef(tostr(a[0].t))
+    ex.callees['strip'] = lambda e, s, recv, a, k: VStr(strip(recv.t))
+    ex.callees['decimal_type'] = lambda e, s, recv, a, k: VRef(conv_dec(a[0].t))
+    orig_sub, orig_cmp, orig_call = ex.e_Subscript, ex.cmp, ex.e_Call
+
+    def e_Subscript(e, s):
+        if ast.unparse(e) == 'result[:1]': return ('prefix-of-result', ex.ev(e.value, s))
+        return orig_sub(e, s)
+    ex.e_Subscript = e_Subscript
+
+    def cmp(op, l_, r_, s):
+        if isinstance(l_, tuple) and l_ and l_[0] == 'prefix-of-result' and isinstance(op, ast.Eq): return starts_brace(l_[1].t)
+        if isinstance(op, (ast.Is, ast.IsNot)) and isinstance(l_, VRef) and isinstance(lift(r_), VNone):
+            res = kind(l_.t) == 2; return res if isinstance(op, ast.Is) else z3.Not(res)
+        return orig_cmp(op, l_, r_, s)
+    ex.cmp = cmp
+    ex.key = lambda v, o=ex.key: v.t if isinstance(v, VRef) else text_item(v.t) if isinstance(v, VStr) else o(v)
+
+    def want_item(c):
+        r = dec(c); kd = kind(r)
+        return z3.If(z3.Or(z3.Not(is_dc), kd == 1, kd == 2), r,
+                     z3.If(kd == 3, z3.If(z3.And(starts_brace(r), is_qn), text_item(c), r),
+                           z3.If(kd == 4, z3.If(dt_none, r, conv_dec(r)),
+                                 z3.If(kd == 5, text_item(strip(c)), tostr(r)))))
+    k = z3.Int('k')
+
+    # `items` is modelled as (length, array index -> value): sequence theory plus quantifiers leaves both solvers undecided here
+    IA = z3.ArraySort(I, Ref)
+
+    def inv(s, i):
+        return z3.And(s.ghost['items_len'] == i, z3.ForAll([k], z3.Implies(z3.And(k >= 0, k < i), s.ghost['items_arr'][k] == want_item(chunks[k]))))
+
+    def append(e, s, recv, a, k_):
+        if not (isinstance(recv, VObj) and recv.name == 'items'): raise Unsupported('append on another list')
+        s.ghost['items_arr'] = z3.Store(s.ghost['items_arr'], s.ghost['items_len'], ex.key(a[0])); s.ghost['items_len'] = s.ghost['items_len'] + 1; return NONE
+    ex.callees['append'] = append
+    ex.callees['extend'] = lambda e_, s_, r_, a_, k_: NONE
+
+    def havoc(s, tag):
+        s.ghost['items_len'] = z3.FreshConst(I, 'len_' + tag); s.ghost['items_arr'] = z3.FreshConst(IA, 'arr_' + tag)
+
+    def loop(e, node, s):
+        if ast.unparse(node.iter) != 'self.normalize(obj).split()': raise Unsupported('loop header drifted')
+        e.oblige('loop-entry', s, inv(s, z3.IntVal(0))); outs = []
+        i = z3.FreshConst(I, 'i'); sb = s.fork(); havoc(sb, 'body')
+        invf = inv(sb, i)
+        sb.pc += [i >= 0, i < n, invf, kind(dec(chunks[i])) != 0, kind(dec(chunks[i])) >= 1, kind(dec(chunks[i])) <= 6]
+        sb.env[node.target.id] = VStr(chunks[i]); before = len(sb.ghost['decoded']); len0, arr0 = sb.ghost['items_len'], sb.ghost['items_arr']
+        for kind_, val, s2 in e.block(node.body, sb):
+            if kind_ in ('fall', 'continue'):
+                # the step itself, without quantifiers: exactly the reported item of this chunk is appended
+                s3 = s2.fork(); s3.pc = [p_ for p_ in s2.pc if not p_.eq(invf)]      # the step does not need the (quantified) invariant: a refutation then has a finite model
+                e.oblige('appended-item-is-the-reported-value-of-the-chunk', s3, z3.And(s2.ghost['items_len'] == len0 + 1, s2.ghost['items_arr'] == z3.Store(arr0, len0, want_item(chunks[i]))))
+                e.oblige('loop-preserve', s2, inv(s2, i + 1))
+                d = s2.ghost['decoded'][before:]
+                e.oblige('one-item-decode-per-chunk-with-the-callers-mode-and-context', s2,
+                         z3.And(z3.BoolVal(len(d) == 1 and isinstance(d[0][2], VObj) and d[0][2].name == 'context'), d[0][0] == chunks[i], d[0][1] == s2.env['validation'].t) if len(d) == 1 else z3.BoolVal(False))
+            else: outs.append((kind_, val, s2))
+        sn = s.fork(); havoc(sn, 'nested'); j = z3.FreshConst(I, 'j')
+        sn.pc += [j >= 0, j < n, kind(dec(chunks[j])) == 0]; sn.env[node.target.id] = VStr(chunks[j]); e0 = sn.ghost['errs']
+        for kind_, val, s2 in e.block(node.body, sn):
+            e.oblige('nested-list-item-is-an-error', s2, z3.BoolVal(s2.ghost['errs'] == e0 + 1))
+        se = s.fork(); havoc(se, 'end'); se.pc.append(inv(se, n)); outs.extend(e.block(node.orelse, se) if node.orelse else [('fall', None, se)])
+        return outs
+    ex.s_For = lambda node, s: loop(ex, node, s)
+    st.objf['items'] = {}; st.ghost['items_len'] = z3.IntVal(0); st.ghost['items_arr'] = z3.Const('items_arr0', IA)
+    orig_list = ex.e_List
+    ex.e_List = lambda e, s: VObj('items') if not e.elts else orig_list(e, s)
+    pre = n >= 0; outs = ex.run(st, pre)
+
+    def post(kind_, v, s):
+        if kind_ != 'return' or not (isinstance(v, VObj) and v.name == 'items'): return z3.BoolVal(False)
+        return z3.And(s.ghost['items_len'] == n, z3.ForAll([k], z3.Implies(z3.And(k >= 0, k < n), s.ghost['items_arr'][k] == want_item(chunks[k]))))
+    run.post(ex, outs, pre, {'items-in-order-one-per-chunk': post})
